@@ -545,9 +545,16 @@ def check_declared_range(R, prog):
         if ok:
             R.ok("DECLARED-RANGE", "%s: update_variable_number(n) dominates the insertion of sampled constraints over n" % gen, g.key)
         else:
-            R.bad(F("DECLARED-RANGE", g, "%s declares n before inserting" % gen,
-                    "the formula must declare its n variables (update_variable_number(n)) before inserting the unchecked sampled "
-                    "constraints, and sample over the same k, n, m"))
+            from . import c13 as _c13
+            sem = _c13.verdict(prog, mod, "gen")         # folds the generator over a stand-in formula class: n declared, variables within 1..n
+            if sem[0] is True:
+                R.ok("DECLARED-RANGE", "%s: %s" % (gen, sem[1]), g.key)
+                R.unknown("DECLARED-RANGE", "%s declares n before inserting" % gen, g.key,
+                          "shape not recognised; the meaning of the fragment was confirmed by folding")
+            else:
+                R.bad(F("DECLARED-RANGE", g, "%s declares n before inserting" % gen,
+                        "the formula must declare its n variables (update_variable_number(n)) before inserting the unchecked sampled "
+                        "constraints, and sample over the same k, n, m"))
         for fname in (sampler, enum):
             f = prog.func(mod, fname)
             n = f.params[1]
@@ -563,7 +570,14 @@ def check_declared_range(R, prog):
             if good:
                 R.ok("DECLARED-RANGE", "%s: variables are drawn from range(1, n+1) only" % fname, f.key)
             else:
-                R.bad(F("DECLARED-RANGE", f, "%s variable range" % fname, "variables of sampled constraints must come from range(1, n+1)"))
+                from . import c13 as _c13
+                sem = _c13.verdict(prog, mod, "sampler" if fname == sampler else "enum")
+                if sem[0] is True:
+                    R.ok("DECLARED-RANGE", "%s: %s" % (fname, sem[1]), f.key)
+                    R.unknown("DECLARED-RANGE", "%s variable range" % fname, f.key,
+                              "shape not recognised; the meaning of the fragment was confirmed by folding")
+                else:
+                    R.bad(F("DECLARED-RANGE", f, "%s variable range" % fname, "variables of sampled constraints must come from range(1, n+1)"))
 
 
 def fold(e, env):
